@@ -386,6 +386,32 @@ def rule_route(ctx):
     ctx.ob(R, f0, f0.node, ok, "the default partitioner is not DefaultPartitioner()", text="default-partitioner")
 
 
+def rule_available(ctx):
+    R = "available"
+    ctx.rep.rule(R, "the `available` set handed to the partitioner is the set of partitions that have a leader: the filter of "
+                    "ClusterMetadata.available_partitions_for_topic is evaluated over leader ids {-1, 0, 1, 1001} and must hold exactly for the "
+                    "ids that denote a broker (0 is a valid broker id, -1 means no leader); the comprehension yields the partition id")
+    from .. import finite
+    fm = ctx.fn("aiokafka.cluster.ClusterMetadata.available_partitions_for_topic")
+    comps = [n for n in ast.walk(fm.node) if isinstance(n, (ast.SetComp, ast.ListComp, ast.GeneratorExp))]
+    ctx.anchor(len(comps) == 1 and len(comps[0].generators) == 1, "one comprehension in available_partitions_for_topic")
+    g = comps[0].generators[0]
+    ok_shape = isinstance(g.target, ast.Tuple) and len(g.target.elts) == 2 and unparse(comps[0].elt) == unparse(g.target.elts[0]) and unparse(g.iter).endswith(".items()")
+    ctx.ob(R, fm, comps[0], ok_shape, "the comprehension does not yield the partition ids of the topic's partition map", text="yields-partition-ids")
+    mv = unparse(g.target.elts[1]) if ok_shape else "metadata"
+    verdicts = {}
+    for leader in (-1, 0, 1, 1001):
+        try:
+            v = True
+            for cond in g.ifs:
+                v = v and bool(finite.ev(cond, {f"{mv}.leader": leader}, set()))
+            verdicts[leader] = v
+        except AnalysisError as e:
+            raise AnalysisError(f"availability filter cannot be evaluated: {e}")
+    want = {-1: False, 0: True, 1: True, 1001: True}
+    ctx.ob(R, fm, comps[0], verdicts == want and bool(g.ifs), f"availability filter gives {verdicts}; a partition is available exactly when its leader id is not -1 (broker id 0 is a broker)", text="filter")
+
+
 def run(ctx):
     rep = ctx.rep
     rep.explanation = ("C17: murmur2 is evaluated symbolically on 32-bit terms and compared term for term with the Java algorithm (all four tail "
@@ -394,5 +420,6 @@ def run(ctx):
     rule_murmur(ctx)
     rule_width(ctx)
     rule_route(ctx)
+    rule_available(ctx)
     rep.nd("bit-for-bit equality with Java for concrete keys is implied by term equality modulo 2^32 plus the width rule, under the assumption that "
            "Python's `bytes` indexing yields 0..255; no concrete key is hashed by this check")
